@@ -341,7 +341,7 @@ def gen_case(draw):
     out = []
     for k, r in enumerate(reqs):
         if k and draw(st.integers(0, 2)) == 0:
-            kind = draw(st.sampled_from(["add", "add", "state", "destroy"]))
+            kind = draw(st.sampled_from(["add", "add", "state", "destroy", "regroup", "regroup", "reinfo"]))
             if kind == "add":
                 o = draw(gen_object(users, pnames, False))
                 o["orphan"] = False
@@ -350,7 +350,19 @@ def gen_case(draw):
                 step = {"mut": kind, "i": draw(st.integers(0, n - 1))}
                 if kind == "state":
                     step["to"] = draw(st.sampled_from(["ACTIVE", "DEACTIVATED", "COMPROMISED"]))
+                elif kind in ("regroup", "reinfo"):
+                    # one instance of a multi-valued attribute of ONE object gets another value
+                    # (objects share group names and application namespaces; each has its own)
+                    step["j"] = draw(st.integers(0, 3))
+                    step["to"] = draw(st.integers(0, 7))
                 out.append(step)
+                if kind in ("regroup", "reinfo"):
+                    # ... and its owner asks for every value of the pool right away
+                    who = objs[step["i"]]["owner"]
+                    for val in (OGROUP_POOL if kind == "regroup" else ASI_POOL):
+                        attr = "Object Group" if kind == "regroup" else "Application Specific Information"
+                        out.append({"who": who, "groups": None, "v": [1, 4],
+                                    "f": [[attr, _jsonable_value(attr, val)]], "pages": [], "walk": None})
         if draw(st.integers(0, 5)) == 0:
             o = draw(gen_object(users, pnames, False))
             r = dict(r, batch={"obj": o})
@@ -1030,6 +1042,19 @@ def apply_mutation(srv, spec, model, ospecs, step):
         else:
             do({"op": "Revoke", "uid": m["uid"], "code": "KEY_COMPROMISE"})
         m["state"] = to
+        return True
+    if step["mut"] in ("regroup", "reinfo"):
+        key, pool, name = ("grps", OGROUP_POOL, "Object Group") if step["mut"] == "regroup" \
+            else ("asi", [tuple(a) for a in ASI_POOL], "Application Specific Information")
+        cur = m[key]
+        new = [x for x in pool if x not in cur]
+        if not cur or not new:
+            return False
+        j = step["j"] % len(cur)
+        val = new[step["to"] % len(new)]
+        do({"op": "ModifyAttribute", "uid": m["uid"],
+            "attr": [name, val if key == "grps" else {"ns": val[0], "data": val[1]}, j]})
+        cur[j] = val
         return True
     raise core.HarnessError("unknown mutation %r" % (step,))
 
